@@ -1,5 +1,275 @@
-import CachedModel
+/-
+  C15  Every hit is accounted exactly once; reads never wait for the counting pipeline.
+
+  "Every successful read contributes exactly one access record, which at any time is either still buffered,
+   delivered (queued for / applied to the frequency sketch) or counted as dropped — never lost, never
+   double-counted; when the consumer is saturated whole buffers are dropped and counted as dropped."
+
+  All statements are about Layer A (`CachedModel/State.lean`): `readKey`, `poolAdd`, `acceptBuffer`,
+  `consumerStep`, and every state reachable by `step` (`ReachG`, reachability with the ghost counters of
+  `Lemmas/StatsInv.lean`).  Quantifiers: every configuration (any pool size, buffer size and channel capacity,
+  0 included), every start time and seed list, every history of events and every oracle.
+
+  Scope: the identities hold WHILE `shutdown()` has not been called (`s.shutting = false`).  `shutdown()`
+  resets the statistics but leaves the pool's buffers as they are (`shutdownFinish`), so afterwards
+  `hits = buffered + accessAdded + accessDropped` is void; nothing is claimed there (see `C15_shutdown_voids`).
+-/
+import CachedProofs.Lemmas.StatsInv
 
 namespace Cached
+
+/-! ### 1. conservation at every reachable state -/
+
+/-- Every hit is in exactly one place — still buffered, delivered, or counted as dropped — and every delivered
+    record is either still queued for the consumer or has left its queue (applied to the sketch, or discarded
+    together with the queue when the consumer exits). -/
+theorem C15_conservation {cfg : Cfg} {now : Nat} {seeds : List Nat} {s : State} {g : Ghost}
+    (hr : ReachG cfg now seeds s g) (hs : s.shutting = false) :
+    s.stats.hits = buffered s + s.stats.accessAdded + s.stats.accessDropped ∧
+    s.stats.accessAdded = queuedRecords s + g.applied :=
+  ⟨(reachG_sinv hr hs).conserve, (reachG_sinv hr hs).delivered⟩
+
+/-! ### 2. one read, one record -/
+
+/-- A hit creates exactly one access record and counts exactly one hit: no hypothesis on the pool, the buffer
+    size or the consumer is needed (a buffer size of 0 hands over a buffer at every hit). -/
+theorem C15_exactly_one_record {s s' : State} {k v : Nat} {o o' : Oracle}
+    (h : readKey s k o = .ok (s', some v, o')) :
+    buffered s' + s'.stats.accessAdded + s'.stats.accessDropped =
+      buffered s + s.stats.accessAdded + s.stats.accessDropped + 1 ∧
+    s'.stats.hits = s.stats.hits + 1 ∧ s'.stats.misses = s.stats.misses := by
+  rcases readKey_step h with ⟨_, a⟩ | ⟨hv, _, _⟩
+  · exact ⟨a.total, a.hits, a.misses⟩
+  · cases hv
+
+/-- A miss creates no record: `misses` moves by one, the pool, the consumer's queue and the other counters
+    are untouched, no oracle value is consumed. -/
+theorem C15_miss_no_record {s s' : State} {k : Nat} {o o' : Oracle}
+    (h : readKey s k o = .ok (s', none, o')) :
+    s'.stats.misses = s.stats.misses + 1 ∧ s'.stats.hits = s.stats.hits ∧
+    s'.pool = s.pool ∧ s'.bufq = s.bufq ∧ buffered s' = buffered s ∧
+    s'.stats.accessAdded = s.stats.accessAdded ∧ s'.stats.accessDropped = s.stats.accessDropped ∧ o' = o := by
+  rcases readKey_step h with ⟨hv, _⟩ | ⟨_, rfl, rfl⟩
+  · cases hv
+  · exact ⟨rfl, rfl, rfl, rfl, rfl, rfl, rfl, rfl⟩
+
+/-- Which of the two it is: a value is returned exactly for a key that is held and alive. -/
+theorem C15_hit_iff {s s' : State} {k : Nat} {o o' : Oracle} {v : Option Nat}
+    (h : readKey s k o = .ok (s', v, o')) :
+    v.isSome = true ↔ ∃ e, s.store.get? k = some e ∧ e.alive s.now = true := by
+  unfold readKey at h
+  cases hg : s.store.get? k with
+  | none =>
+    simp only [hg, Except.ok.injEq, Prod.mk.injEq] at h
+    obtain ⟨_, rfl, _⟩ := h
+    exact ⟨fun hv => (by cases hv), fun ⟨e', he', _⟩ => by cases he'⟩
+  | some e =>
+    simp only [hg] at h
+    split at h
+    · rename_i ha
+      split at h
+      · simp only [Except.ok.injEq, Prod.mk.injEq] at h
+        obtain ⟨_, rfl, _⟩ := h
+        exact ⟨fun _ => ⟨e, rfl, ha⟩, fun _ => rfl⟩
+      · cases h
+    · rename_i ha
+      simp only [Except.ok.injEq, Prod.mk.injEq] at h
+      obtain ⟨_, rfl, _⟩ := h
+      refine ⟨fun hv => (by cases hv), fun ⟨e', he', ha'⟩ => ?_⟩
+      simp only [Option.some.injEq] at he'
+      subst he'
+      exact absurd ha' ha
+
+/-! ### 3. reads never wait -/
+
+/-- `get` always returns a value (never `.parked`: it has no blocking send), and touches neither the sketch,
+    nor the command queue, the parked calls, the worker, the store or the admission state.
+    For every state, key and oracle — shut down or not, consumer alive or not, queue full or not. -/
+theorem C15_reads_never_wait {s s' : State} {k : Nat} {o o' : Oracle} {out : Out}
+    (h : clientGet s k o = .ok (s', out, o')) :
+    (∃ v, out = .value v) ∧
+    s'.lfu = s.lfu ∧ s'.queue = s.queue ∧ s'.pend = s.pend ∧ s'.worker = s.worker ∧
+    s'.store = s.store ∧ s'.adm = s.adm := by
+  unfold clientGet at h
+  split at h
+  · simp only [Except.ok.injEq, Prod.mk.injEq] at h
+    obtain ⟨rfl, rfl, _⟩ := h
+    exact ⟨⟨_, rfl⟩, rfl, rfl, rfl, rfl, rfl, rfl⟩
+  · split at h
+    · rename_i s1 v o1 hr
+      simp only [Except.ok.injEq, Prod.mk.injEq] at h
+      obtain ⟨rfl, rfl, _⟩ := h
+      obtain ⟨_, _, _, a⟩ := readKey_accStep hr
+      have hk := a.key; have hw := a.wt; have hc := a.cmd
+      simp only [keyView, wtView, cmdView, Prod.mk.injEq] at hk hw hc
+      exact ⟨⟨_, rfl⟩, a.lfu, hc.1, hc.2, a.worker, hk.1, hw.1⟩
+    · cases h
+
+/-- The same for `multi_get`, with one answer per key asked. -/
+theorem C15_multi_reads_never_wait {s s' : State} {ks : List Nat} {o o' : Oracle} {out : Out}
+    (h : clientMultiGet s ks o = .ok (s', out, o')) :
+    (∃ vs, out = .values vs ∧ (s.shutting = false → vs.length = ks.length)) ∧
+    s'.lfu = s.lfu ∧ s'.queue = s.queue ∧ s'.pend = s.pend ∧ s'.worker = s.worker ∧
+    s'.store = s.store ∧ s'.adm = s.adm := by
+  unfold clientMultiGet at h
+  split at h
+  · rename_i hs
+    simp only [Except.ok.injEq, Prod.mk.injEq] at h
+    obtain ⟨rfl, rfl, _⟩ := h
+    exact ⟨⟨_, rfl, fun hf => by rw [hf] at hs; cases hs⟩, rfl, rfl, rfl, rfl, rfl, rfl⟩
+  · split at h
+    · rename_i s1 vs o1 hr
+      simp only [Except.ok.injEq, Prod.mk.injEq] at h
+      obtain ⟨rfl, rfl, _⟩ := h
+      obtain ⟨_, _, _, a, hl⟩ := readKeys_accStep _ _ _ _ _ _ _ hr
+      have hk := a.key; have hw := a.wt; have hc := a.cmd
+      simp only [keyView, wtView, cmdView, Prod.mk.injEq] at hk hw hc
+      exact ⟨⟨_, rfl, fun _ => by simpa using hl⟩, a.lfu, hc.1, hc.2, a.worker, hk.1, hw.1⟩
+    · cases h
+
+/-- In particular the outcome of a read is never `.parked`. -/
+theorem C15_reads_not_parked {s s' : State} {ev : Ev} {o o' : Oracle} {out : Out}
+    (hev : (∃ k, ev = .get k) ∨ (∃ ks, ev = .multiGet ks)) (h : step s ev o = .ok (s', out, o')) :
+    (∃ v, out = .value v) ∨ (∃ vs, out = .values vs) := by
+  rcases hev with ⟨k, rfl⟩ | ⟨ks, rfl⟩
+  · exact Or.inl (C15_reads_never_wait (by simpa [step] using h)).1
+  · obtain ⟨⟨vs, hv, _⟩, _⟩ := C15_multi_reads_never_wait (show clientMultiGet s ks o = _ by simpa [step] using h)
+    exact Or.inr ⟨vs, hv⟩
+
+/-! ### 4. a saturated (or exited) consumer: the whole buffer is dropped, and counted -/
+
+theorem C15_saturated_consumer_drops_whole_buffers (s : State) (hs : List Nat) :
+    ((s.consumerAlive = false ∨ s.bufq.length ≥ s.cfg.bufChanCap) →
+      (acceptBuffer s hs).stats.accessDropped = s.stats.accessDropped + hs.length ∧
+      (acceptBuffer s hs).stats.accessAdded = s.stats.accessAdded ∧
+      (acceptBuffer s hs).bufq = s.bufq) ∧
+    (¬ (s.consumerAlive = false ∨ s.bufq.length ≥ s.cfg.bufChanCap) →
+      (acceptBuffer s hs).stats.accessAdded = s.stats.accessAdded + hs.length ∧
+      (acceptBuffer s hs).stats.accessDropped = s.stats.accessDropped ∧
+      (acceptBuffer s hs).bufq = s.bufq ++ [.full hs]) := by
+  unfold acceptBuffer
+  constructor
+  · intro h
+    rw [if_neg]
+    · exact ⟨rfl, rfl, rfl⟩
+    · simp only [Bool.and_eq_true, decide_eq_true_eq, not_and, Nat.not_lt]
+      rcases h with h | h
+      · intro ha; rw [h] at ha; cases ha
+      · intro _; exact h
+  · intro h
+    rw [if_pos]
+    · exact ⟨rfl, rfl, rfl⟩
+    · simp only [Bool.and_eq_true, decide_eq_true_eq]
+      constructor
+      · cases ha : s.consumerAlive with
+        | true => rfl
+        | false => exact absurd (Or.inl ha) h
+      · exact Nat.lt_of_not_le (fun hle => h (Or.inr hle))
+
+/-- Either way nothing else changes: the hand-over never blocks and never touches the pool. -/
+theorem C15_acceptBuffer_frame (s : State) (hs : List Nat) :
+    (acceptBuffer s hs).pool = s.pool ∧ (acceptBuffer s hs).stats.hits = s.stats.hits ∧
+    (acceptBuffer s hs).stats.misses = s.stats.misses ∧ (acceptBuffer s hs).lfu = s.lfu := by
+  unfold acceptBuffer
+  split <;> exact ⟨rfl, rfl, rfl, rfl⟩
+
+/-! ### 5. the consumer applies one batch per step -/
+
+theorem C15_consumer_applies_batch {s s' : State} {o o' : Oracle} {out : Out} {hs : List Nat}
+    (hhead : s.bufq.head? = some (.full hs)) (hkeep : s.consumerKeep = true)
+    (h : consumerStep s o = .ok (s', out, o')) :
+    s'.bufq = s.bufq.tail ∧ s'.stats = s.stats ∧ s'.pool = s.pool ∧
+    (∃ consumed, o.dkAdd = consumed ++ o'.dkAdd ∧ consumed.length = hs.length) ∧
+    queuedRecords s = queuedRecords s' + hs.length := by
+  unfold consumerStep at h
+  split at h
+  · cases h
+  · split at h
+    · cases h
+    · rename_i hq; rw [hq] at hhead; cases hhead
+    · rename_i hs' q hq
+      rw [hq] at hhead
+      simp only [List.head?_cons, Option.some.injEq, BufEvent.full.injEq] at hhead
+      subst hhead
+      split at h
+      · cases h
+      · rename_i t o1 hinc
+        simp only [hkeep, Except.ok.injEq, Prod.mk.injEq] at h
+        obtain ⟨rfl, _, rfl⟩ := h
+        obtain ⟨consumed, h1, h2, _⟩ := incrementAll_oracle _ _ _ _ _ hinc
+        refine ⟨by rw [hq]; rfl, rfl, rfl, ⟨consumed, h1, h2⟩, ?_⟩
+        simp only [queuedRecords, hq, List.map_cons, List.sum_cons]; omega
+
+/-! ### the scope: `shutdown()` voids the identity -/
+
+/-- `shutdownFinish` zeroes the counters but keeps the buffers: with a non-empty buffer the conservation
+    identity fails afterwards.  This is why `C15_conservation` is stated for `s.shutting = false`. -/
+theorem C15_shutdown_voids (s : State) (h : 0 < buffered s) :
+    (shutdownFinish s).stats.hits ≠
+      buffered (shutdownFinish s) + (shutdownFinish s).stats.accessAdded + (shutdownFinish s).stats.accessDropped := by
+  have : buffered (shutdownFinish s) = buffered s := rfl
+  rw [this]
+  show 0 ≠ buffered s + 0 + 0
+  omega
+
+/-! ### 6. non-vacuity: pool of one buffer of size one, channel capacity one, three hits on one key -/
+
+def c15cfg : Cfg :=
+  { maxWeight := 100, shards := 4, cmdCap := 4, poolSize := 1, bufSize := 1, counters := 2, bufChanCap := 1 }
+
+/-- put key 5, let the worker admit it, then `n` hits (each choosing buffer 0 of the pool) -/
+def c15history (n : Nat) : List (Ev × Oracle) :=
+  [(.put 0 5 7, ({} : Oracle)), (.worker, ({} : Oracle))] ++ List.replicate n (.get 5, { pool := [0] })
+
+/-- what the examples look at: hits, misses, buffered, accessAdded, accessDropped, queued, applied, lookups -/
+def c15view (r : Option (State × Ghost)) : Option (List Nat) :=
+  r.map (fun p => [p.1.stats.hits, p.1.stats.misses, buffered p.1, p.1.stats.accessAdded,
+                   p.1.stats.accessDropped, queuedRecords p.1, p.2.applied, p.2.lookups])
+
+def c15run (evs : List (Ev × Oracle)) : Option (State × Ghost) := runG (State.init c15cfg 0 [1, 2]) {} evs
+
+/-- first hit: the record is buffered -/
+example : c15view (c15run (c15history 1)) = some [1, 0, 1, 0, 0, 0, 0, 1] := by decide
+/-- second hit: the full buffer is handed over (`accessAdded = 1`, one record queued), the new record buffered -/
+example : c15view (c15run (c15history 2)) = some [2, 0, 1, 1, 0, 1, 0, 2] := by decide
+/-- third hit: the consumer's queue is full, the buffer is dropped whole and counted (`accessDropped = 1`) -/
+example : c15view (c15run (c15history 3)) = some [3, 0, 1, 1, 1, 1, 0, 3] := by decide
+/-- the consumer then applies the queued batch (one `add_if_missing` answer consumed): queued 0, applied 1;
+    the fourth hit finds room again: `accessAdded = 2` -/
+example : c15view (c15run (c15history 3 ++ [(.consumer, { dkAdd := [true] }), (.get 5, { pool := [0] })])) =
+    some [4, 0, 1, 2, 1, 1, 1, 4] := by decide
+
+/-- These states are reachable (so `C15_conservation` applies to them) and not shut down. -/
+example : ∃ s g, ReachG c15cfg 0 [1, 2] s g ∧ s.shutting = false ∧ s.stats.accessDropped = 1 ∧
+    s.stats.accessAdded = 1 ∧ buffered s = 1 ∧ s.stats.hits = 3 := by
+  have h : ∃ p, c15run (c15history 3) = some p := by
+    cases hr : c15run (c15history 3) with
+    | none => exact absurd (congrArg c15view hr) (by decide)
+    | some p => exact ⟨p, rfl⟩
+  obtain ⟨⟨s, g⟩, hp⟩ := h
+  refine ⟨s, g, runG_reach _ _ _ _ _ .init hp, ?_⟩
+  have hv : (c15run (c15history 3)).map (fun p => (p.1.shutting, p.1.stats.accessDropped, p.1.stats.accessAdded,
+      buffered p.1, p.1.stats.hits)) = some (false, 1, 1, 1, 3) := by decide
+  rw [hp] at hv
+  simp only [Option.map_some, Option.some.injEq, Prod.mk.injEq] at hv
+  exact hv
+
+/-- hypotheses of `C15_exactly_one_record` / `C15_miss_no_record` are satisfiable: a hit and a miss -/
+example : (c15run (c15history 0)).map (fun p =>
+      ((readKey p.1 5 { pool := [0] }).toOption.map (fun r => r.2.1),
+       (readKey p.1 6 ({} : Oracle)).toOption.map (fun r => r.2.1))) = some (some (some 7), some none) := by decide
+
+/-- hypotheses of `C15_saturated_consumer_drops_whole_buffers`: both branches occur -/
+example : (c15run (c15history 1)).map (fun p => decide (p.1.consumerAlive = false ∨ p.1.bufq.length ≥ p.1.cfg.bufChanCap)) = some false ∧
+          (c15run (c15history 2)).map (fun p => decide (p.1.consumerAlive = false ∨ p.1.bufq.length ≥ p.1.cfg.bufChanCap)) = some true := by
+  decide
+
+/-- hypotheses of `C15_consumer_applies_batch`: after the second hit the queue's head is a full buffer -/
+example : (c15run (c15history 2)).map (fun p => (p.1.bufq.head?, p.1.consumerKeep,
+      (consumerStep p.1 { dkAdd := [true] }).toOption.map (fun r => r.1.bufq))) =
+    some (some (.full [5]), true, some []) := by decide
+
+/-- `C15_shutdown_voids` is not vacuous: after the first hit one record is buffered. -/
+example : (c15run (c15history 1)).map (fun p => decide (0 < buffered p.1)) = some true := by decide
 
 end Cached
